@@ -172,7 +172,7 @@ def run(prop, tier, seed, replay=None):
     apa = apalache_readcounter(wd) if prop == "C14" else None
     gpath, gruns, gstates = gen_graphs(tier, wd, seed)
     trace = os.path.join(wd, "trace.ndjson")
-    ngraphs = 400 if tier == "quick" else 4000
+    ngraphs = 600 if tier == "quick" else 4000
     s = core.mt("record-flow", gpath, os.path.join(wd, "sum.json"), seed,
                 {"trace": trace, "graphs": ngraphs, "runs": 4 if tier == "quick" else 6})
     if s["evaluations"] < 100:
